@@ -807,7 +807,7 @@ pub fn check_tokens(fe: Fe, g: &GenFile, source: &[char], tokens: &[Token]) -> V
 
 pub fn worker(ctx: &mut Ctx) {
     let dict: Arc<FstDictionary> = FstDictionary::curated();
-    let corpus = Corpus { sentences: vec![], fixtures: vec![], vocab: vec![] };
+    let corpus = Corpus { sentences: vec![], fixtures: vec![], vocab: vec![], phrases: vec![] };
     // vocabulary sanity (generator self-check, independent of the code under test's parsers)
     use harper_core::Dictionary;
     for w in PROSE_WORDS {
